@@ -132,3 +132,128 @@ func runFirsts(c *sup.Child, idx int) {
 		r.Nontrivial = true
 	})
 }
+
+// refused: a submission the runner refuses for a reason other than its wait list (a sandbox name
+// that cannot be resolved) must leave nothing behind – no task of that name in the manager, a wait
+// list naming it is refused, and TasksManager.Wait() still returns once the accepted tasks are over.
+func runRefused(c *sup.Child, idx int) {
+	rng := c.Rand(idx)
+	badSandbox := []string{"nosuch-sandbox", "ssh:hostonly", "container:"}[rng.Intn(3)]
+	nested := rng.Intn(2) == 0
+	l := &lateRun{}
+	c.Case(idx, map[string]any{"kind": "refused", "sandbox": badSandbox, "submitted_from_a_running_body": nested}, func(r *sup.CaseResult) {
+		var err error
+		if l.mapp, err = goatapp.NewMockupApp(goatapp.Params{}); err != nil {
+			r.Inconclusive = err.Error()
+			return
+		}
+		bs := bootstrap.NewBootstrap(l.mapp)
+		if err = goaterr.ToError(goaterr.AppendError(nil, bs.Register(terminalm.NewModule()), bs.Register(commonm.NewModule()),
+			bs.Register(ocm.NewModule()), bs.Register(pipelinem.NewModule()))); err == nil {
+			err = bs.Init()
+		}
+		if err != nil {
+			r.Inconclusive = "application stack: " + err.Error()
+			return
+		}
+		var deps struct {
+			Runner pipservices.Runner    `dependency:"PipRunner"`
+			Tasks  pipservices.TasksUnit `dependency:"PipTasksUnit"`
+		}
+		if err = l.mapp.DependencyProvider().InjectTo(&deps); err != nil {
+			r.Inconclusive = err.Error()
+			return
+		}
+		l.runner = deps.Runner
+		l.root = scope.New(scope.Params{Name: "c14refused"})
+		mgr, err := deps.Tasks.FromScope(l.root)
+		if err != nil {
+			r.Inconclusive = err.Error()
+			return
+		}
+		gate := make(chan struct{})
+		var ghostMu sync.Mutex
+		var ghostErr error
+		ghostDone := false
+		var finished atomic.Int64
+		submitGhost := func(scp app.Scope) {
+			p := l.pip(scp, "ghost", "fwork\n")
+			p.Sandbox = badSandbox
+			e := l.runner.Run(p)
+			ghostMu.Lock()
+			ghostErr, ghostDone = e, true
+			ghostMu.Unlock()
+		}
+		l.mapp.Terminal().SetCommand(terminal.NewCommand(terminal.CommandParams{Name: "fwork", Callback: func(app.App, app.IOContext) error {
+			<-gate
+			finished.Add(1)
+			return nil
+		}}))
+		l.mapp.Terminal().SetCommand(terminal.NewCommand(terminal.CommandParams{Name: "fspawn", Callback: func(a app.App, ctx app.IOContext) error {
+			submitGhost(l.separated("ghost-scope"))
+			return nil
+		}}))
+		wit := map[string]any{"sandbox": badSandbox, "nested": nested}
+		if nested {
+			if err = l.runner.Run(l.pip(l.separated("outer-scope"), "outer", "fspawn\nfwork\n")); err != nil {
+				r.Inconclusive = "outer submission refused: " + err.Error()
+				return
+			}
+			// the body runs asynchronously: wait (bounded, logical) until the spawn command has returned
+			for k := 0; k < 20000; k++ {
+				ghostMu.Lock()
+				d := ghostDone
+				ghostMu.Unlock()
+				if d {
+					break
+				}
+				time.Sleep(100 * time.Microsecond)
+			}
+		} else {
+			submitGhost(l.separated("ghost-scope"))
+			if err = l.runner.Run(l.pip(l.separated("outer-scope"), "outer", "fwork\n")); err != nil {
+				r.Inconclusive = "outer submission refused: " + err.Error()
+				return
+			}
+		}
+		ghostMu.Lock()
+		gErr, gDone := ghostErr, ghostDone
+		ghostMu.Unlock()
+		if !gDone {
+			close(gate)
+			r.Inconclusive = "the submission from the running body never returned"
+			return
+		}
+		if gErr == nil {
+			r.Violate("invalid-submission-accepted", fmt.Sprintf("a submission with the sandbox %q was accepted", badSandbox), wit)
+		}
+		if _, ok := mgr.Get("ghost"); ok {
+			close(gate)
+			r.Violate("refused-task-registered", fmt.Sprintf("the submission with the unresolvable sandbox %q was refused, yet a task named \"ghost\" is registered in the scope's manager (names: %v): nothing will ever finish it", badSandbox, mgr.Names()), wit)
+			return
+		}
+		dep := l.pip(l.separated("dep-scope"), "dependant", "fwork\n")
+		dep.Wait = []string{"ghost"}
+		if err := l.runner.Run(dep); err == nil {
+			close(gate)
+			r.Violate("wait-list-names-refused-task", "a submission whose wait list names the refused task \"ghost\" was accepted", wit)
+			return
+		}
+		close(gate)
+		done := make(chan error, 1)
+		go func() { done <- mgr.Wait() }()
+		select {
+		case <-done:
+		case <-time.After(30 * time.Second):
+			r.Inconclusive = "refused: TasksManager.Wait() did not return within the watchdog"
+			return
+		}
+		if finished.Load() != 1 {
+			r.Violate("wait-returned-before-accepted-task-finished", fmt.Sprintf("TasksManager.Wait() returned, %d of 1 accepted bodies finished", finished.Load()), wit)
+			return
+		}
+		r.AddObs("refused_submissions_that_left_nothing_behind", 1)
+		r.Key = fmt.Sprintf("refused|%s|%v", badSandbox, nested)
+		r.Nontrivial = true
+	})
+}
